@@ -8,7 +8,8 @@ MEAN_A = MEAN % ('a', 'a', 'a')
 TOTAL = 'msum_over(keys(self.arm_to_expectation), lambda b: %s)' % (MEAN % ('b', 'b', 'b'))
 klass('_Popularity', fields={},
       # C01: the arm means normalised to sum to one (whenever some mean is non-zero)
-      inv=['[C01,C06,stat.mean] implies(%s != 0, %s)' % (TOTAL, forall_arms('val(self.arm_to_expectation, a) == %s / %s'
+      inv=['[stat.mean] True',        # replaces the greedy clause: a Popularity expectation is a share, not a mean
+           '[C01,C06,pop.share] implies(%s != 0, %s)' % (TOTAL, forall_arms('val(self.arm_to_expectation, a) == %s / %s'
                                                                            % (MEAN_A, TOTAL)))])
 
 fn('popularity._Popularity.__init__', props='C01 C04 C08', inline=True,
@@ -77,4 +78,4 @@ predict_contracts('popularity', '_Popularity', E1, EM,
 arm_change_contracts('_Popularity', ['arm_to_sum', 'arm_to_count', 'arm_to_expectation'],
                      'val(self.arm_to_sum, arm) == 0 and val(self.arm_to_count, arm) == 0 and '
                      'val(self.arm_to_expectation, arm) == 0', other_maps=['arm_to_sum', 'arm_to_count'],
-                     props='C01 C08', rem_req=['slen(self.arms) > 0'], rem_inv='INV~stat.mean')
+                     props='C01 C08', rem_req=['slen(self.arms) > 0'], rem_inv='INV~pop', pre_inv='INV~arms~pop')
